@@ -291,7 +291,9 @@ func (fx *FnExec) enterLoop(fr *frame, li *loopInfo, lc *LoopContract, st *State
 		}
 		if seq, ok := st.ghost["callseq"].(*Term); ok {
 			ns := c.Fresh("loop.callseq", BV(64))
-			fx.assumeGlobal(c.BVCmp("bvsle", seq, ns))
+			// the running call number only grows, and stays far from wrapping (fewer than 2^45 traced calls in one
+			// execution - the same bound as for lengths)
+			fx.assumeGlobal(c.And(c.BVCmp("bvsle", seq, ns), c.BVCmp("bvsle", ns, c.BVConst(mask(maxLenBits), 64))))
 			st.ghost["callseq"] = ns
 		}
 	}
